@@ -1284,3 +1284,97 @@ mut(
 )
 
 MUTANTS = M
+
+mut(
+    "c19-sanitiser-rewrites-dunder",
+    "C19",
+    "C19.sanitise",
+    "cdd/shared/pure_utils.py",
+    "    elif s[0].isdigit():\n        s: str = \"_{}\".format(s)\n    valid",
+    "    elif s[0].isdigit() or s.startswith(\"__\"):\n        s: str = \"_{}\".format(s)\n    valid",
+)
+mut(
+    "c19-sanitiser-drops-digits",
+    "C19",
+    "C19.sanitise",
+    "cdd/shared/pure_utils.py",
+    "        \"_{}{}\".format(string.ascii_letters, string.digits)\n",
+    "        \"_{}\".format(string.ascii_letters)\n",
+)
+mut(
+    "c19-get-emitter-memoised",
+    "C19",
+    "C19.perentry",
+    "cdd/shared/emit/utils/emitter_utils.py",
+    "def get_emitter(emit_name):\n",
+    "from functools import lru_cache\n\n\n@lru_cache(maxsize=None)\ndef get_emitter(emit_name):\n",
+)
+
+mut(
+    "c20-emit-even-when-symbol-in-file",
+    "C20",
+    "C20.srcguard",
+    EXU,
+    "    if not symbol_in_file and (ir.get(\"name\") or ir[\"params\"] or ir[\"returns\"]):\n",
+    "    if ir.get(\"name\") or ir[\"params\"] or ir[\"returns\"]:\n",
+)
+mut(
+    "c20-symbol-in-file-by-substring",
+    "C20",
+    "C20.srcguard",
+    EXU,
+    """        symbol_in_file: bool = any(
+            filter(
+                partial(eq, name),
+                map(
+                    attrgetter("name"),
+                    filter(rpartial(hasattr, "name"), existent_mod.body),
+                ),
+            )
+        )
+""",
+    """        symbol_in_file: bool = "class {}(".format(name) in emit_filename_contents
+""",
+)
+mut(
+    "c20-symbol-in-file-equivalent-genexp",  # behaviour-preserving: must NOT be reported
+    "C20",
+    "C20.srcguard",
+    EXU,
+    """        symbol_in_file: bool = any(
+            filter(
+                partial(eq, name),
+                map(
+                    attrgetter("name"),
+                    filter(rpartial(hasattr, "name"), existent_mod.body),
+                ),
+            )
+        )
+""",
+    """        symbol_in_file: bool = any(
+            node.name == name for node in existent_mod.body if hasattr(node, "name")
+        )
+""",
+    expect="ok",
+)
+mut(
+    "c20-symbol-in-file-equivalent-set",  # behaviour-preserving: must NOT be reported
+    "C20",
+    "C20.srcguard",
+    EXU,
+    """        symbol_in_file: bool = any(
+            filter(
+                partial(eq, name),
+                map(
+                    attrgetter("name"),
+                    filter(rpartial(hasattr, "name"), existent_mod.body),
+                ),
+            )
+        )
+""",
+    """        symbol_in_file: bool = name in frozenset(
+            map(attrgetter("name"), filter(rpartial(hasattr, "name"), existent_mod.body))
+        )
+""",
+    expect="ok",
+)
